@@ -798,7 +798,7 @@ fn versus_seeded<K: Kit>(tier: &'static str, scs: &[Scenario]) -> Report {
     jobs.par_iter()
         .map(|(sc0, seed)| {
             let mut rep = Report::new();
-            for bias in [0.05, 0.4] {
+            for bias in [0.0, 0.05, 0.4, 1.0] {
                 for goal_rng in [false, true] {
                     let run = |pk: Pk| {
                         let mut sc = sc0.clone();
